@@ -1,6 +1,7 @@
 package main
 
 import (
+	"go/token"
 	"go/types"
 	"sort"
 	"strings"
@@ -433,17 +434,71 @@ func c17Maps(c *Ctx) {
 				return
 			}
 			sorted := ""
+			var firstSort ssa.CallInstruction
 			for _, a := range instrsAfter(ins) {
 				if call, ok := a.(ssa.CallInstruction); ok {
 					if o := calleeObj(call); o != nil && o.Pkg() != nil {
 						name := o.Pkg().Path() + "." + o.Name()
 						if sortCallees[name] || (strings.HasPrefix(o.Pkg().Path(), modPath) && strings.HasPrefix(o.Name(), "sort")) {
 							sorted = name
+							if firstSort == nil && len(call.Common().Args) > 0 {
+								firstSort = call
+							}
 						}
 					}
 				}
 			}
 			c.Check(rule, key, r.Pos(), sorted != "", "iteration over a map in "+FuncKey(fn)+" is not followed by a sort: the iteration order of Go maps is random, so anything derived from it differs between runs")
+			// no copy of what is about to be sorted is taken between the iteration
+			// and the sort: the copy keeps the order of the map
+			if firstSort != nil {
+				si := firstSort.(ssa.Instruction)
+				target := firstSort.Common().Args[0]
+				sameSlice := func(v ssa.Value) bool {
+					for {
+						if s, ok := v.(*ssa.Slice); ok {
+							v = s.X
+							continue
+						}
+						break
+					}
+					if v == target {
+						return true
+					}
+					u1, ok1 := v.(*ssa.UnOp)
+					u2, ok2 := target.(*ssa.UnOp)
+					if !ok1 || !ok2 || u1.Op != token.MUL || u2.Op != token.MUL {
+						return false
+					}
+					if u1.X == u2.X {
+						return true
+					}
+					f1, ok1 := u1.X.(*ssa.FieldAddr)
+					f2, ok2 := u2.X.(*ssa.FieldAddr)
+					return ok1 && ok2 && f1.Field == f2.Field && (f1.X == f2.X || sameCell(f1.X, f2.X))
+				}
+				early := ""
+				allCalls(fn, false, func(_ *ssa.Function, call ssa.CallInstruction) {
+					ci, ok := call.(ssa.Instruction)
+					if !ok || ci == si || !dominates(ins, ci) || !dominates(ci, si) {
+						return
+					}
+					args := call.Common().Args
+					if b, ok := call.Common().Value.(*ssa.Builtin); ok {
+						switch {
+						case b.Name() == "copy" && len(args) == 2 && sameSlice(args[1]):
+							early = "copy() at " + c.P.Pos(call.Pos())
+						case b.Name() == "append" && len(args) == 2 && sameSlice(args[1]) && !sameSlice(args[0]):
+							early = "append(…, s...) at " + c.P.Pos(call.Pos())
+						}
+						return
+					}
+					if o := calleeObj(call); o != nil && o.Pkg() != nil && (o.Pkg().Path() == "slices" || o.Pkg().Path() == "bytes") && o.Name() == "Clone" && len(args) == 1 && sameSlice(args[0]) {
+						early = o.Pkg().Path() + ".Clone at " + c.P.Pos(call.Pos())
+					}
+				})
+				c.Check(rule, key+": no copy taken before the sort", r.Pos(), early == "", FuncKey(fn)+" copies the slice filled from the map ("+early+") before it is sorted: the copy keeps the iteration order of the map, and whatever is restored from it later (a reset writer's key/value metadata) is written in a different order on every run")
+			}
 		})
 	}
 	c.Stats[rule+".map_ranges"] = n
